@@ -243,6 +243,7 @@ pub fn run_one(name: &str, c: &Cfg) -> Option<Result<(), String>> {
 
 /// `search <layer.what>` -> first failing configuration; `run <layer.what> <cfg json>` -> that configuration only
 pub fn dispatch(cmd: &str, name: &str, arg: &str) -> Option<String> {
+    if name.starts_with("connect.") { return dispatch_connect(cmd, name, arg); }
     if !["conv", "deconv", "pool"].iter().any(|p| name.starts_with(p)) { return None; }
     std::panic::set_hook(Box::new(|_| {}));
     if cmd == "run" {
@@ -261,4 +262,54 @@ pub fn dispatch(cmd: &str, name: &str, arg: &str) -> Option<String> {
         }
     }
     Some(format!("{{\"failed\":false,\"tried\":{}}}", tried))
+}
+
+// ------------------------------------------------------------------------------------------------ Network::connect (C16)
+fn net_dense(n: usize) -> crate::network::Network {
+    let mut net = crate::network::Network::new(Shape::Single(1));
+    for _ in 0..n { net.dense(1, Activation::Linear, false, None); }
+    net
+}
+/// all sequences of two valid calls on an n-layer dense network; Err on the first sequence that breaks the clause
+pub fn connect_check(what: &str, only: Option<(usize, usize, usize, usize, usize)>) -> Result<usize, (String, String)> {
+    let mut tried = 0;
+    for n in 2..5usize {
+        for b1 in 0..n { for a1 in 0..=b1 { for b2 in 0..n { for a2 in 0..=b2 {
+            if let Some(o) = only { if o != (n, a1, b1, a2, b2) { continue; } }
+            tried += 1;
+            let input = format!("{{\"layers\":{},\"first\":[{},{}],\"second\":[{},{}]}}", n, a1, b1, a2, b2);
+            let r = std::panic::catch_unwind(|| {
+                let mut net = net_dense(n);
+                net.connect(a1, b1);
+                let second = std::panic::catch_unwind(std::panic::AssertUnwindSafe(|| net.connect(a2, b2)));
+                (second.is_ok(), net.connect.get(&b1).cloned(), net.connect.get(&b2).cloned())
+            });
+            let (accepted, first_now, second_now) = match r { Ok(x) => x, Err(_) => return Err((input, "the first (valid) call was rejected".into())) };
+            if what == "no_discard" {
+                if accepted && first_now != Some(a1) {
+                    return Err((input, format!("second call accepted but the first mapping {}->{} became {:?}", a1, b1, first_now)));
+                }
+                if accepted && second_now != Some(a2) { return Err((input, "second call accepted but not recorded".into())); }
+            } else {
+                // distinct sources and targets must be accepted
+                if a1 != a2 && b1 != b2 && !accepted {
+                    return Err((input, "connections with distinct sources and targets: second call rejected".into()));
+                }
+            }
+        }}}}
+    }
+    Ok(tried)
+}
+pub fn dispatch_connect(cmd: &str, name: &str, arg: &str) -> Option<String> {
+    let what = name.strip_prefix("connect.")?;
+    std::panic::set_hook(Box::new(|_| {}));
+    let only = if cmd == "run" {
+        let nums: Vec<usize> = arg.split(|c: char| !c.is_ascii_digit()).filter(|x| !x.is_empty()).filter_map(|x| x.parse().ok()).collect();
+        if nums.len() != 5 { return None; }
+        Some((nums[0], nums[1], nums[2], nums[3], nums[4]))
+    } else { None };
+    Some(match connect_check(what, only) {
+        Ok(t) => format!("{{\"failed\":false,\"tried\":{}}}", t),
+        Err((input, detail)) => format!("{{\"failed\":true,\"input\":{},\"detail\":{:?}}}", input, detail),
+    })
 }
